@@ -468,6 +468,8 @@ def run(ctx):
     _run_rules(ctx)
     from .. import boundaries
     boundaries.check(ctx, 'C09.RB', 'C09')
+    from . import C17
+    C17.r10_remember_after_reset(ctx, 'C09.R11')
     boundaries.check_inits(ctx, 'C09.RI', 'C09')
     boundaries.check_codes(ctx, 'C09.RE', 'C09')
     boundaries.check_writes(ctx, 'C09.RW', 'C09')
